@@ -377,6 +377,76 @@ pub fn ddmin(mut bytes: Vec<u8>, fails: &dyn Fn(&[u8]) -> bool) -> Vec<u8> {
     }
 }
 
+/// How many preceding cases of a runner thread are kept for the history confirmation.
+const HISTORY_DEPTH: usize = 6;
+
+/// Run `seq` (byte-vector cases) one after the other on a fresh thread; the outcome of the last one.
+fn run_sequence_fresh(f: fn(&mut Src, &mut Stats, &Env) -> CaseResult, env: &Env, seq: &[Vec<u8>]) -> Result<CaseResult, String> {
+    let env2 = Env { property: env.property, tier: env.tier, seed: env.seed, known: env.known.clone(), strict: env.strict };
+    let seq: Vec<Vec<u8>> = seq.to_vec();
+    let h = std::thread::Builder::new().stack_size(STACK).spawn(move || {
+        let mut last: Result<CaseResult, String> = Ok(Ok(()));
+        for b in &seq {
+            let mut scratch = Stats::new();
+            scratch.frozen = true;
+            let mut src = Src::new(b);
+            last = catch(std::panic::AssertUnwindSafe(|| f(&mut src, &mut scratch, &env2)));
+        }
+        last
+    });
+    match h {
+        Ok(h) => h.join().unwrap_or_else(|_| Err("the sequence thread died".to_string())),
+        Err(e) => Err(format!("spawn failed: {}", e)),
+    }
+}
+
+/// The failing case `last` did not fail when run alone.  Try it after the cases that preceded
+/// it (fresh thread each attempt), then drop as many predecessors as possible and shrink the
+/// remaining ones.  Some((sequence, failure)) if the failure (same signature) shows again.
+fn confirm_with_history(f: fn(&mut Src, &mut Stats, &Env) -> CaseResult, sub_name: &str, env: &Env, before: &[Vec<u8>], last: &[u8], sig: &str) -> Option<(Vec<Vec<u8>>, Failure)> {
+    let fails = |seq: &[Vec<u8>]| -> Option<Failure> {
+        match run_sequence_fresh(f, env, seq) {
+            Ok(Err(fl)) if fl.sig == sig && !env.is_known(&fl.sig) => Some(fl),
+            Err(p) if sig == "panic" && panic_is_in_library(&p) => Some(Failure::new(sub_name, "panic", format!("the library panicked: {}", p), json!({}))),
+            _ => None,
+        }
+    };
+    if before.is_empty() {
+        return None;
+    }
+    let mut seq: Vec<Vec<u8>> = before.to_vec();
+    seq.push(last.to_vec());
+    fails(&seq)?;
+    // (must not fail alone on a fresh thread either: otherwise it is an ordinary failure)
+    let deadline = Instant::now() + std::time::Duration::from_secs(SHRINK_BUDGET_S);
+    // drop predecessors, oldest first
+    let mut i = 0;
+    while i + 1 < seq.len() && Instant::now() < deadline {
+        let mut shorter = seq.clone();
+        shorter.remove(i);
+        if shorter.len() >= 2 && fails(&shorter).is_some() {
+            seq = shorter;
+        } else {
+            i += 1;
+        }
+    }
+    // shrink every remaining element with the others fixed
+    for k in 0..seq.len() {
+        if Instant::now() > deadline {
+            break;
+        }
+        let fixed = seq.clone();
+        let shrunk = ddmin(seq[k].clone(), &|b: &[u8]| {
+            let mut cand = fixed.clone();
+            cand[k] = b.to_vec();
+            fails(&cand).is_some()
+        });
+        seq[k] = shrunk;
+    }
+    let fl = fails(&seq)?;
+    Some((seq, fl))
+}
+
 pub struct SubOutcome {
     pub stats: Stats,
     pub failure: Option<(Failure, Value)>, // failure + replay input
@@ -442,6 +512,8 @@ fn run_bytes_sub(env: &Arc<Env>, sub: &BytesSub) -> SubOutcome {
                 let failed_here = std::cell::Cell::new(false);
                 let shrink_started: std::cell::Cell<Option<Instant>> = std::cell::Cell::new(None);
                 let first_seen: std::cell::RefCell<Option<(Failure, Vec<u8>)>> = std::cell::RefCell::new(None);
+                // the cases that ran on this thread just before the first failing one
+                let recent: std::cell::RefCell<std::collections::VecDeque<Vec<u8>>> = std::cell::RefCell::new(Default::default());
                 let keep_unrepro = keep_unreproducible;
                 let strat = vec(any::<u8>(), 0..=max_len);
                 let res = runner.run(&strat, |bytes| {
@@ -462,6 +534,13 @@ fn run_bytes_sub(env: &Arc<Env>, sub: &BytesSub) -> SubOutcome {
                     *slots[t].lock().unwrap() = Some((Instant::now(), bytes.clone()));
                     let r = catch(std::panic::AssertUnwindSafe(|| f(&mut src, &mut st, &env)));
                     *slots[t].lock().unwrap() = None;
+                    if !failed_here.get() && matches!(r, Ok(Ok(()))) {
+                        let mut q = recent.borrow_mut();
+                        q.push_back(bytes.clone());
+                        if q.len() > HISTORY_DEPTH {
+                            q.pop_front();
+                        }
+                    }
                     match r {
                         Ok(Ok(())) => Ok(()),
                         Ok(Err(fail)) => {
@@ -525,6 +604,19 @@ fn run_bytes_sub(env: &Arc<Env>, sub: &BytesSub) -> SubOutcome {
                         let fail = match r {
                             Ok(Err(fl)) => fl,
                             Ok(Ok(())) => {
+                                // Not reproducible alone.  Does it fail again when the cases that
+                                // preceded it on this thread run first (on a fresh thread)?  Then the
+                                // library kept state from an earlier call: the sequence is the replay.
+                                let (fl0, b0) = first_seen.borrow().clone().unwrap();
+                                let before: Vec<Vec<u8>> = recent.borrow().iter().cloned().collect();
+                                if let Some((seq, fl)) = confirm_with_history(f, name, &env, &before, &b0, &fl0.sig) {
+                                    let mut fl = fl;
+                                    fl.message = format!("{} [fails only after {} preceding case(s) ran on the same thread: state left behind by an earlier call; the replay runs the whole sequence on a fresh thread]", fl.message, seq.len() - 1);
+                                    fl.case["preceded_by_cases"] = json!(seq.len() - 1);
+                                    fl.replay_override = Some((name.to_string(), json!({"kind": "sequence", "sequence": seq})));
+                                    results.lock().unwrap().push((t, st.clone(), Some((fl, b0))));
+                                    return;
+                                }
                                 if keep_unrepro {
                                     // report what was observed, with the input that showed it
                                     let (mut fl, b0) = first_seen.borrow().clone().unwrap();
@@ -607,6 +699,15 @@ fn run_custom_sub(env: &Arc<Env>, sub: &CustomSub) -> SubOutcome {
 pub fn replay_input(p: &Property, sub_name: &str, input: &Value, env: &Env) -> Result<CaseResult, String> {
     let sub = p.subs.iter().find(|s| s.name() == sub_name).ok_or_else(|| format!("no sub-check {} in {}", sub_name, p.id))?;
     match sub {
+        Sub::Bytes(b) if input["kind"] == "sequence" => {
+            let seq: Vec<Vec<u8>> = input["sequence"]
+                .as_array()
+                .ok_or("replay input lacks a sequence")?
+                .iter()
+                .map(|c| c.as_array().map(|a| a.iter().map(|x| x.as_u64().unwrap_or(0) as u8).collect()).unwrap_or_default())
+                .collect();
+            run_sequence_fresh(b.f, env, &seq)
+        }
         Sub::Bytes(b) => {
             let bytes: Vec<u8> = input["bytes"]
                 .as_array()
@@ -750,7 +851,7 @@ pub fn run_property(p: &Property, tier: Tier, seed: u64, only_sub: Option<&str>)
             let path = save_replay(p.id, &fl, &input, seed);
             // a second, case-level minimisation (token / document level) where the property offers one
             let mut reported = (fl, path);
-            if let Some(m) = p.minimise {
+            if let Some(m) = p.minimise.filter(|_| input["kind"] != "sequence") {
                 let strict_env = make_env(p, tier, seed, false);
                 if let Ok(Some((small, small_input))) = catch(std::panic::AssertUnwindSafe(|| m(&reported.0, &strict_env))) {
                     let path2 = save_replay(p.id, &small, &small_input, seed);
